@@ -90,6 +90,201 @@ Example C02_example :
 Proof. repeat split; try (vm_compute; reflexivity).
   eapply prod_flat; [reflexivity|]. eapply prod_prop; [reflexivity|]. eapply prod_here; reflexivity. Qed.
 
+(* ------------------------------------------------------------------------------------------------------------------
+   Second tie, by translation (DESIGN.md §13.T): coq/Gen/MpsNetGen.v is GENERATED on every run by translator/mpsnet2coq.py from
+   the source of MPSPerLayerQtz / MPSPerChannelQtz / MPSBiasQtz (.forward, effective_scale), MPSConv2d / MPSConv1d / MPSLinear /
+   MPSIdentity / MPSAdd (.forward, selected_*, summary, export) and QuantConv2d / QuantConv1d / QuantLinear / QuantIdentity /
+   QuantList (constructor wiring, .forward) of the tree under test.  Objects are references: selectors are `qid`s whose sampler
+   state (Gen/SamplerGen.v, C10) lives in a heap `h`; a quantizer's scale depends on the tensor it saw last (`lasts`).
+   `World` collects the abstract tensors / layer functions; the four algebraic premises are those of C02_export_sound_mps, the
+   two premises on gexp (exp) those of C10.  `ready h q` = per-layer selector in eval mode or hard non-Gumbel sampling, sampling
+   enabled; `fresh h q` = its sampled coefficients are the one-hot at the arg-max of its raw coefficients (what the producer's
+   forward of the same pass leaves: C02_generated_selector_eval).  Proofs: Proofs/MpsNetGen.v. *)
+Require Import Plinio.Gen.MpsNetGen Plinio.Proofs.MpsNetGen.
+
+(* MPSPerLayerQtz.forward = sample, then `mix` of Model/MpsNet.v over the candidates; effective_scale = `effscale` *)
+Theorem C02_generated_selector_is_mix : forall (W : World) (q : qid) (h : heap) (x : V) (noise : qid -> list (list Q)),
+  length (th1 (sample_alpha h q noise) q) = qlen q ->
+  pl_forward_gen q h x noise =
+  (after_call q x (sample_alpha h q noise),
+   mix V Q vzero vadd smul (th1 (sample_alpha h q noise) q) (map (fun k : nat => qfun q k x) (seq 0 (qlen q)))).
+Proof. exact @selector_forward_is_mix. Qed.
+
+Theorem C02_generated_effective_scale_is_effscale : forall (W : World) (q : qid) (h : heap),
+  length (th1 h q) = qlen q ->
+  pl_effective_scale_gen q h = effscale V Q vzero vadd smul qlen (hscale h) (fun q' : qid => th1 h q') q.
+Proof. exact @effective_scale_is_effscale. Qed.
+
+(* eval / hard mode: the selector applies the quantizer that summary() / export() select, and leaves `fresh` coefficients *)
+Theorem C02_generated_selector_eval : forall W : World,
+  (forall v : V, smul 0 v = vzero) -> (forall v : V, smul 1 v = v) -> (forall v : V, vadd vzero v = v) -> (forall v : V, vadd v vzero = v) ->
+  (forall x : Q, (0 < gexp x)%Q) -> (forall x y : Q, (x < y)%Q -> (gexp x < gexp y)%Q) ->
+  forall (q : qid) (h : heap) (x : V) (noise : qid -> list (list Q)),
+  skind_of q = PerLayer -> ready h q ->
+  snd (sel_call q h x noise) = qfun q (Plinio.Model.Sampler.argmax (acol h q)) x /\ fresh (fst (sel_call q h x noise)) q.
+Proof. exact @selector_eval_selects_argmax. Qed.
+
+(* MAIN SENTENCE for the generated code, one layer: the searchable layer in eval / hard mode computes what the layer built by the
+   generated export() computes (conv2d, conv1d, linear), whatever the layer functions ... *)
+Theorem C02_generated_layer_export_sound : forall W : World,
+  (forall v : V, smul 0 v = vzero) -> (forall v : V, smul 1 v = v) -> (forall v : V, vadd vzero v = v) -> (forall v : V, vadd v vzero = v) ->
+  (forall x : Q, (0 < gexp x)%Q) -> (forall x y : Q, (x < y)%Q -> (gexp x < gexp y)%Q) ->
+  forall (self : mlayer) (h he : heap) (x : V) (noise : qid -> list (list Q)),
+  eval_ready self h ->
+  lasts he (l_in self) (ksel h (l_in self)) = lasts h (l_in self) (ksel h (l_in self)) ->
+  (forall e : qlayer, conv2d_export_gen self h = EOne e -> snd (conv2d_forward_gen self h x noise) = snd (qconv2d_forward_gen e he x)) /\
+  (forall e : qlayer, conv1d_export_gen self h = EOne e -> snd (conv1d_forward_gen self h x noise) = snd (qconv1d_forward_gen e he x)) /\
+  (forall e : qlayer, linear_export_gen self h = EOne e -> snd (linear_forward_gen self h x noise) = snd (qlinear_forward_gen e he x)).
+Proof. exact @layer_forward_export_sound. Qed.
+
+(* ... and the two models keep agreeing on the tensor every SELECTED quantizer saw last (the premise above, at the consumers) *)
+Theorem C02_generated_layer_heaps_agree : forall W : World,
+  (forall v : V, smul 0 v = vzero) -> (forall v : V, smul 1 v = v) -> (forall v : V, vadd vzero v = v) -> (forall v : V, vadd v vzero = v) ->
+  (forall x : Q, (0 < gexp x)%Q) -> (forall x y : Q, (x < y)%Q -> (gexp x < gexp y)%Q) ->
+  forall (self : mlayer) (h he : heap) (x : V) (noise : qid -> list (list Q)),
+  eval_ready self h ->
+  (forall q : qid, lasts he q (ksel h q) = lasts h q (ksel h q)) ->
+  forall e : qlayer, conv2d_export_gen self h = EOne e ->
+  forall q : qid, lasts (fst (qconv2d_forward_gen e he x)) q (ksel h q) = lasts (fst (conv2d_forward_gen self h x noise)) q (ksel h q).
+Proof. exact @layer_forward_heaps_agree. Qed.
+
+(* the generated forward of a layer wired as node i of a network IS the hand model's node function (mps_node with one-hot
+   coefficients at the arg-max = exp_node with the arg-max selection): C02_export_sound_mps / _argmax are about the code *)
+Theorem C02_generated_layer_is_hand_node : forall W : World,
+  (forall v : V, smul 0 v = vzero) -> (forall v : V, smul 1 v = v) -> (forall v : V, vadd vzero v = v) -> (forall v : V, vadd v vzero = v) ->
+  (forall x : Q, (0 < gexp x)%Q) -> (forall x y : Q, (x < y)%Q -> (gexp x < gexp y)%Q) ->
+  forall (fixed shared : bool) (net : list node) (i : nat) (nd : node) (s : nat) (self : mlayer) (h : heap) (vs : list V)
+         (x0 : V) (noise : qid -> list (list Q)) (propf : nat -> V -> V) (addf : V -> V -> V),
+  wired fixed shared net i self -> nth_error net i = Some nd -> is_layer nd = true -> first_src nd = Some s ->
+  skind_of (l_w self) = PerLayer -> skind_of (l_out self) = PerLayer -> skind_of (l_in self) = PerLayer ->
+  ready h (l_w self) -> ready h (l_out self) -> fresh h (l_in self) ->
+  let hand_mps :=
+    mps_node V Q vzero vadd smul qlen qfun (run_scale self h) convf (fun _ : nat => l_weight self) (fun _ : nat => vnone)
+             (fun (_ : nat) (_ : V) => call_mps_b self) propf addf fixed shared net (theta_star h) x0 vs i nd in
+  let hand_exp :=
+    exp_node V vzero qfun (run_scale self h) convf (fun _ : nat => l_weight self) (fun _ : nat => vnone)
+             (fun (_ : nat) (_ : V) => call_mps_b self) propf addf fixed shared net (sel_star h) x0 vs i nd in
+  snd (conv2d_forward_gen self h (nth s vs vzero) noise) = hand_mps /\
+  snd (conv1d_forward_gen self h (nth s vs vzero) noise) = hand_mps /\
+  snd (linear_forward_gen self h (nth s vs vzero) noise) = hand_mps /\ hand_mps = hand_exp.
+Proof. exact @layer_forward_is_hand_node. Qed.
+
+(* MPSIdentity (input quantizer) / MPSAdd (re-quantization behind an add) and the QuantIdentity their export() builds *)
+Theorem C02_generated_identity_export_sound : forall W : World,
+  (forall v : V, smul 0 v = vzero) -> (forall v : V, smul 1 v = v) -> (forall v : V, vadd vzero v = v) -> (forall v : V, vadd v vzero = v) ->
+  (forall x : Q, (0 < gexp x)%Q) -> (forall x y : Q, (x < y)%Q -> (gexp x < gexp y)%Q) ->
+  forall (self : mlayer) (h he : heap) (x : V) (noise : qid -> list (list Q)),
+  skind_of (l_out self) = PerLayer -> ready h (l_out self) ->
+  snd (identity_forward_gen self h x noise) = snd (qidentity_forward_gen (identity_export_gen self h) he x) /\
+  snd (identity_forward_gen self h x noise) = snd (qidentity_forward_gen (add_export_gen self h) he x) /\
+  snd (identity_forward_gen self h x noise) = qfun (l_out self) (ksel h (l_out self)) x.
+Proof. exact @identity_forward_export_sound. Qed.
+
+Theorem C02_generated_identity_is_hand_node : forall W : World,
+  (forall v : V, smul 0 v = vzero) -> (forall v : V, smul 1 v = v) -> (forall v : V, vadd vzero v = v) -> (forall v : V, vadd v vzero = v) ->
+  forall (fixed shared : bool) (net : list node) (i : nat) (nd : node) (self : mlayer) (h : heap) (vs : list V) (x0 x : V)
+         (sc : qid -> nat -> V) (convf' : nat -> V -> V -> V -> V) (weight bias : nat -> V) (biasq' : nat -> V -> V -> V -> V)
+         (propf : nat -> V -> V) (addf : V -> V -> V),
+  l_out self = out_qid net i -> (ksel h (l_out self) < qlen (l_out self))%nat ->
+  (exists c : nat, nd = NIn c /\ x = x0) \/ (exists a b : nat, nd = NAdd a b /\ x = addf (nth a vs vzero) (nth b vs vzero)) ->
+  qfun (l_out self) (ksel h (l_out self)) x =
+    exp_node V vzero qfun sc convf' weight bias biasq' propf addf fixed shared net (sel_star h) x0 vs i nd /\
+  qfun (l_out self) (ksel h (l_out self)) x =
+    mps_node V Q vzero vadd smul qlen qfun sc convf' weight bias biasq' propf addf fixed shared net (theta_star h) x0 vs i nd.
+Proof. exact @identity_out_is_hand_node. Qed.
+
+(* second sentence: the generated summary() = the hand model's summary_of; the exported layer carries exactly the quantizer
+   objects export_of names, whose precisions are those summary() reports (arg-max of the RAW coefficients) *)
+Theorem C02_generated_summary_export_is_hand : forall (W : World) (fixed shared : bool) (net : list node) (i : nat) (self : mlayer) (h : heap),
+  wired fixed shared net i self -> skind_of (l_w self) = PerLayer ->
+  (ksel h (l_w self) < qlen (l_w self))%nat -> (ksel h (l_out self) < qlen (l_out self))%nat -> (ksel h (l_in self) < qlen (l_in self))%nat ->
+  let hand := summary_of (acol h) precs fixed shared net i in
+  let tag := fun t : Z * Z * Z => let '(a, b, c) := t in (a, b, WOne c) in
+  conv2d_summary_gen self h = tag hand /\ conv1d_summary_gen self h = tag hand /\ linear_summary_gen self h = tag hand /\
+  (forall e : qlayer,
+     conv2d_export_gen self h = EOne e \/ conv1d_export_gen self h = EOne e \/ linear_export_gen self h = EOne e ->
+     (e_in e, e_out e, e_w e) = export_of (acol h) fixed shared net i /\ export_precs precs (e_in e, e_out e, e_w e) = hand).
+Proof. exact @summary_export_is_hand. Qed.
+
+(* per-channel weight search (outside the quantifier of the first sentence: QuantList concatenates the groups in order of first
+   occurrence of their precision, not in channel order): what the generated code DOES decide --
+   MPSPerChannelQtz.forward in eval / hard mode applies, channel by channel, the quantizer at the arg-max of that channel's column *)
+Theorem C02_generated_per_channel_selector_eval :
+  forall (W : World) (X : Type) (zx : X) (addx : X -> X -> X) (smulx : Q -> X -> X) (chan : V -> nat -> X),
+  (forall c : nat, chan vzero c = zx) ->
+  (forall (a b : V) (c : nat), chan (vadd a b) c = addx (chan a c) (chan b c)) ->
+  (forall (row : list Q) (v : V) (c : nat), chan (cmul row v) c = smulx (nth c row 0%Q) (chan v c)) ->
+  (forall v : X, smulx 0%Q v = zx) -> (forall v : X, smulx 1%Q v = v) -> (forall v : X, addx zx v = v) -> (forall v : X, addx v zx = v) ->
+  (forall x : Q, (0 < gexp x)%Q) -> (forall x y : Q, (x < y)%Q -> (gexp x < gexp y)%Q) ->
+  forall (q : qid) (h : heap) (x : V) (noise : qid -> list (list Q)) (c : nat),
+  ready_pc h q -> (c < length (alpha_of h q))%nat ->
+  chan (snd (pc_forward_gen q h x noise)) c = chan (qfun q (Plinio.Model.Sampler.argmax (nth c (alpha_of h q) nil)) x) c.
+Proof. exact @pc_forward_eval_chan. Qed.
+
+(* ... and export() builds one exported layer per precision group: every channel lies in exactly the group of its own arg-max
+   precision, which carries that precision's trained quantizer object and the selected input / output quantizers *)
+Theorem C02_generated_per_channel_export_groups : forall (W : World) (self : mlayer) (h : heap),
+  skind_of (l_w self) = PerChannel ->
+  (conv2d_export_gen self h = EList (pc_groups CConv2d self h) /\ conv1d_export_gen self h = EList (pc_groups CConv1d self h) /\
+   linear_export_gen self h = EList (pc_groups CLinear self h)) /\
+  forall c : lcls, NoDup (precs (l_w self)) -> Forall (fun k : nat => (k < qlen (l_w self))%nat) (pc_sel self h) ->
+  forall ch : nat, (ch < length (pc_sel self h))%nat ->
+  let kc := nth ch (pc_sel self h) 0%nat in
+  (exists g : qlayer, In g (pc_groups c self h) /\ e_w g = (l_w self, kc) /\
+      e_mask g = Some (map (fun k : nat => Nat.eqb k kc) (pc_sel self h)) /\
+      e_in g = sel_qobj_canon h (l_in self) /\ e_out g = sel_qobj_canon h (l_out self)) /\
+  (forall (g : qlayer) (m : list bool), In g (pc_groups c self h) -> e_mask g = Some m -> nth ch m false = true -> e_w g = (l_w self, kc)).
+Proof. exact @per_channel_export_groups. Qed.
+
+(* QuantList.forward (what the per-channel export returns): the member layers run in list order on the SAME input, each through the
+   forward of its own class, outputs concatenated over the channel axis *)
+Theorem C02_generated_quant_list_forward : forall (W : World) (ls : list qlayer) (h : heap) (x : V),
+  qlist_forward_gen ls h x = (fst (qlist_run ls h x), vcat (snd (qlist_run ls h x))) /\
+  (forall l : qlayer, qlayer_call l h x = q_forward_canon l h x).
+Proof. exact @quant_list_forward. Qed.
+
+(* one tensor element at a time, with the quantizers GENERATED for C13 (Gen/QuantGen.v) plugged into the generated layers
+   (World = elem_world: PACT activations, min-max weights over the range (-m, m), bias quantized with s_a * s_w, one
+   multiply-accumulate as layer operation); == is equality of rationals *)
+Theorem C02_generated_elem_selector_eval : forall gx : Q -> Q,
+  (forall x : Q, (0 < gx x)%Q) -> (forall x y : Q, (x < y)%Q -> (gx x < gx y)%Q) ->
+  forall (pa pw : list nat) (clipv : qid -> nat -> Q) (m : Q) (q : qid)
+         (h : @heap (elem_world gx pa pw clipv m)) (x : Q) (noise : qid -> list (list Q)),
+  @ready (elem_world gx pa pw clipv m) h q ->
+  (snd (@sel_call (elem_world gx pa pw clipv m) q h x noise) == @qfun (elem_world gx pa pw clipv m) q (@ksel (elem_world gx pa pw clipv m) h q) x)%Q.
+Proof. exact elem_selector_eval. Qed.
+
+Theorem C02_generated_elem_layer_export_sound : forall gx : Q -> Q,
+  (forall x : Q, (0 < gx x)%Q) -> (forall x y : Q, (x < y)%Q -> (gx x < gx y)%Q) ->
+  forall (pa pw : list nat) (clipv : qid -> nat -> Q) (m : Q),
+  let W := elem_world gx pa pw clipv m in
+  forall (self : @mlayer W) (h he : @heap W) (x : Q) (noise : qid -> list (list Q)) (b : Q),
+  is_w (@l_w W self) = true -> is_w (@l_out W self) = false -> is_w (@l_in W self) = false -> @l_bias W self = Some b ->
+  @ready W h (@l_w W self) -> @ready W h (@l_out W self) -> @fresh W h (@l_in W self) ->
+  let ki := @ksel W h (@l_in W self) in let ko := @ksel W h (@l_out W self) in let kw := @ksel W h (@l_w W self) in
+  let wgt := Plinio.Gen.QuantGen.wq_gen (nth kw pw 0%nat) (- m) m (@l_weight W self) true in
+  let s_a := Plinio.Gen.QuantGen.aq_scale_gen (nth ki pa 0%nat) (clipv (@l_in W self) ki) in
+  let s_w := Plinio.Gen.QuantGen.wq_scale_gen (nth kw pw 0%nat) (- m) m in
+  (snd (@conv2d_forward_gen W self h x noise) ==
+   Plinio.Gen.QuantGen.aq_gen (nth ko pa 0%nat) (clipv (@l_out W self) ko) (x * wgt + Plinio.Gen.QuantGen.bq_gen (s_a * s_w) b true) true)%Q /\
+  (forall e : @qlayer W, @conv2d_export_gen W self h = @EOne W e ->
+     snd (@qconv2d_forward_gen W e he x) =
+     Plinio.Gen.QuantGen.aq_gen (nth ko pa 0%nat) (clipv (@l_out W self) ko) (x * wgt + Plinio.Gen.QuantGen.bq_gen (s_a * s_w) b true)%Q true).
+Proof. exact elem_layer_export_sound. Qed.
+
+(* the open finding (KNOWN_FINDINGS: layer invoked twice, first forward after a coefficient change) is a behaviour of the
+   generated code: input selector = own output selector, stale sampled coefficients -> the first eval forward differs from the
+   exported layer (1 vs 2), the second one agrees *)
+Theorem C02_generated_layer_invoked_twice_first_forward_differs :
+  let W := finding_world in let l := finding_layer in let h := finding_heap in let nz := fun _ : qid => @nil (list Q) in
+  l_in l = l_out l /\ ready h (l_w l) /\ ready h (l_out l) /\ ~ fresh h (l_in l) /\
+  (exists e : qlayer, conv2d_export_gen l h = EOne e /\
+     (let r1 := conv2d_forward_gen l h 0%Q nz in
+      let r2 := conv2d_forward_gen l (fst r1) 0%Q nz in
+      let re := qconv2d_forward_gen e h 0%Q in
+      Qeq_bool (snd r1) 1 = true /\ Qeq_bool (snd re) 2 = true /\ Qeq_bool (snd r2) 2 = true)).
+Proof. exact layer_invoked_twice_first_forward_differs. Qed.
+
 Print Assumptions C02_onehot_mix.
 Print Assumptions C02_export_sound_mps.
 Print Assumptions C02_export_sound_argmax.
@@ -100,3 +295,18 @@ Print Assumptions C02_in_qtz_old_wiring_guarded.
 Print Assumptions C02_in_qtz_old_wiring_refuted.
 Print Assumptions C02_add_shares_out_qtz.
 Print Assumptions C02_dw_shares_out_qtz.
+Print Assumptions C02_generated_selector_is_mix.
+Print Assumptions C02_generated_effective_scale_is_effscale.
+Print Assumptions C02_generated_selector_eval.
+Print Assumptions C02_generated_layer_export_sound.
+Print Assumptions C02_generated_layer_heaps_agree.
+Print Assumptions C02_generated_layer_is_hand_node.
+Print Assumptions C02_generated_identity_export_sound.
+Print Assumptions C02_generated_identity_is_hand_node.
+Print Assumptions C02_generated_summary_export_is_hand.
+Print Assumptions C02_generated_layer_invoked_twice_first_forward_differs.
+Print Assumptions C02_generated_per_channel_selector_eval.
+Print Assumptions C02_generated_per_channel_export_groups.
+Print Assumptions C02_generated_elem_selector_eval.
+Print Assumptions C02_generated_elem_layer_export_sound.
+Print Assumptions C02_generated_quant_list_forward.
